@@ -98,6 +98,8 @@ def configuration(draw):
                     opts[o] = sign
                 else:
                     opts[o] = draw(st.sampled_from(VALUES[o]))
+                if draw(st.sampled_from(range(10))) == 4:
+                    opts[o] = None      # null in a file: "forget what lower-priority files say about this option of this section"
             content[sec] = opts
         files.append(content)
     own = SECTION_OPTS[secs[0]] + ["log_level"]
@@ -127,26 +129,42 @@ def model(case, with_flags=True):
         if o == "Ignore":
             merged = {}
             for sec in reversed(secs):                 # least specific first, more specific overwrite per path
-                for content in reversed(case["files"]):  # lowest priority directory first
-                    merged.update(copy.deepcopy(content.get(sec, {}).get("Ignore", {})))
+                per_section = {}
+                for content in reversed(case["files"]):  # lowest priority directory first; null forgets
+                    if "Ignore" in content.get(sec, {}):
+                        ign = content[sec]["Ignore"]
+                        if ign is None:
+                            per_section = {}
+                        else:
+                            for pth, v in ign.items():
+                                if v is None:
+                                    per_section.pop(pth, None)
+                                else:
+                                    per_section[pth] = copy.deepcopy(v)
+                merged.update(per_section)
             eff[o] = merged
             continue
         val = DEFAULTS[o] if not (o == "port" and ep == "server") else SERVER_DEFAULT_PORT
-        found = False
-        for sec in secs:                               # most specific section that sets it ...
-            for content in case["files"]:              # ... in the highest-priority directory
+        for sec in secs:                               # most specific section that (still) sets it ...
+            sval, has = None, False
+            for content in reversed(case["files"]):    # ... after the directories are layered, lowest priority first; null forgets
                 if o in content.get(sec, {}):
-                    val = content[sec][o]
-                    found = True
-                    break
-            if found:
+                    if content[sec][o] is None:
+                        has = False
+                    else:
+                        sval, has = content[sec][o], True
+            if has:
+                val = sval
                 break
         eff[o] = val
     # workdirectory: only compared when configured
     for sec in secs:
-        hit = [c[sec]["workdirectory"] for c in case["files"] if "workdirectory" in c.get(sec, {})]
-        if hit and "workdirectory" in own:
-            eff["workdirectory"] = hit[0]
+        sval, has = None, False
+        for content in reversed(case["files"]):        # lowest priority first; null forgets
+            if "workdirectory" in content.get(sec, {}):
+                sval, has = content[sec]["workdirectory"], content[sec]["workdirectory"] is not None
+        if has and "workdirectory" in own:
+            eff["workdirectory"] = sval
             break
     if with_flags:
         for o, v in case["flags"].items():
@@ -313,7 +331,7 @@ def run_case(case):
         for sec, opts in content.items():
             for o, v in opts.items():
                 if o == "Ignore":
-                    for p in v:
+                    for p in (v or {}):
                         setters.setdefault(("Ignore", p), set()).add((sec, di))
                 else:
                     setters.setdefault(o, set()).add((sec, di))
@@ -387,7 +405,14 @@ def run_case(case):
             vals = {v for o, v in model(dict(case, entrypoint=ep_), with_flags=False).items() if o in IGNORABLES and v is not None}
             return len(vals) > 1
         listing = None
-        if any(mixed(e) for e in PRECEDENCE):
+        has_null = any(v is None or (isinstance(v, dict) and any(x is None for x in v.values()))
+                       for c in case["files"] for opts in c.values() for v in opts.values())
+        if has_null:
+            out.label("config_with_null_values")
+        if has_null:
+            # (with include_none the listing keeps the nulls themselves; what it should print for them is not specified)
+            out.count("config_listing_skipped_(null_values)")
+        elif any(mixed(e) for e in PRECEDENCE):
             out.count("config_listing_skipped_(ignorables_configured_with_both_signs)")
         else:
             try:
@@ -398,14 +423,14 @@ def run_case(case):
             out.count("config_listings_compared")
             for ep2 in sorted(PRECEDENCE):
                 compare_listing(out, "config_listing", model(dict(case, entrypoint=ep2), with_flags=False), listing.get(PRECEDENCE[ep2][0]), case, ep2)
-        if parser is not None and case["route"] == "script" and not mixed(ep):
+        if parser is not None and case["route"] == "script" and not mixed(ep) and not has_null:
             try:
                 own = parse_listing(run_listing(lambda: real_parser(ep)[0].parse_args(["--config"])))
                 out.count("own_config_listings_compared")
                 compare_listing(out, "own_config_listing", model(case, with_flags=False), own.get(PRECEDENCE[ep][0]), case, ep)
             except Exception as e:
                 out.fail_exc("config_listing_returns", e)
-        if ep.startswith("git-") and not mixed(ep):
+        if ep.startswith("git-") and not mixed(ep) and not has_null:
             # the git drivers / tools advertise --config on the top-level parser and on their diff / merge sub-command
             import importlib
             mod = importlib.import_module("nbdime.vcs.git." + {"git-nbdiffdriver": "diffdriver", "git-nbmergedriver": "mergedriver",
